@@ -131,6 +131,7 @@ def contStr : InFlight.Cont → String
   | .emptyAfterInitPQ => "empty.0@empty.afterInitPQ"
   | .deferAfterMapPush o => s!"req.{o}@deferred.afterMapPush"
   | .dscanAfterPQPop o => s!"dscan.{o}@dscan.afterPQPop"
+  | .reqDeferAfterMapPush o => s!"req.{o}@deferred.afterMapPush"
 
 def microDump (m : MS) : String :=
   let s := m.st
@@ -183,6 +184,9 @@ def microOp (m : MS) (w : List String) : MS × String :=
   | ["new", fx] => ({ fixed := fx == "1" }, "ok")
   | ["new", fx, sa] =>
     ({ fixed := fx == "1", st := { InFlight.initSt [] with scanAtomic := sa == "1" } }, "ok")
+  | ["new", fx, sa, pa, al] =>
+    ({ fixed := fx == "1", st := { InFlight.initSt [] with scanAtomic := sa == "1", pushAtomic := pa == "1",
+                                                           ansLock := al == "1" } }, "ok")
   | ["dump"] => (m, microDump m)
   | ["put", o] =>
     let r := fin (applySteps f s [.put o.toNat!]) (fun _ => "ok")
